@@ -51,6 +51,15 @@ func lineEnd(t *tape.Tape) string {
 	return "\n"
 }
 
+// innerEOL is the line end used between the rows of one multi-row record: sometimes followed by
+// a blank line (which every line-based reader skips).
+func innerEOL(t *tape.Tape, eol string) string {
+	if t.Chance("gen.innerBlank", 1, 4) {
+		return eol + eol
+	}
+	return eol
+}
+
 func flatTarget(sh Shape) string {
 	if sh.SkipValue != "" {
 		return ".[F0 != '" + sh.SkipValue + "']"
@@ -99,7 +108,18 @@ func genCSV(t *tape.Tape, o GenOpts) *World {
 	}
 	spicy := t.Bool("csv.spicy")
 	quoteEvery := t.Chance("csv.quoteall", 1, 5)
+	replaceDQ := t.Chance("csv.replacedq", 1, 4)
+	if replaceDQ {
+		// double quotes in the data are turned into single quotes by a byte-replacing reader: fields
+		// are never quoted and may carry stray double quotes
+		fd["replace_double_quotes"] = true
+		spicy, quoteEvery = false, false
+		w.SetTag("csv.replace-double-quotes", "1")
+	}
 	w.Render = func(r LRec) string {
+		if replaceDQ {
+			return strings.Join(dqVals(r.Vals), delim)
+		}
 		q := -1
 		if quoteEvery {
 			q = 0
@@ -138,6 +158,15 @@ func genCSV(t *tape.Tape, o GenOpts) *World {
 	return w
 }
 
+// dqVals puts a stray double quote into values that contain a '.', for replace_double_quotes worlds.
+func dqVals(vals []string) []string {
+	out := make([]string, len(vals))
+	for i, v := range vals {
+		out[i] = strings.ReplaceAll(v, ".", "\"")
+	}
+	return out
+}
+
 // ---- csv2 ----
 
 func genCSV2(t *tape.Tape, o GenOpts) *World {
@@ -147,8 +176,10 @@ func genCSV2(t *tape.Tape, o GenOpts) *World {
 	gn := fieldNames("G", sh.NItemFields)
 	delim := t.Pick("csv.delim", ",", "|", ";")
 	eol := lineEnd(t)
+	ieol := innerEOL(t, eol)
 	m := Model{Fields: fn, IntField: fn[sh.IntIdx]}
 	var recDecl D
+	replaceDQ2 := false
 	var records []interface{}
 	globalHdr := layout != 1 && t.Bool("csv2.global")
 	if globalHdr {
@@ -173,6 +204,19 @@ func genCSV2(t *tape.Tape, o GenOpts) *World {
 		} else {
 			w.Render = func(r LRec) string { return "R" + delim + csvLine(r.Vals, delim, -1) }
 		}
+		if t.Chance("csv.replacedq", 1, 3) {
+			replaceDQ2 = true
+			inner := w.Render
+			_ = inner
+			rowsBased := recDecl["header"] == nil
+			w.Render = func(r LRec) string {
+				if rowsBased {
+					return strings.Join(dqVals(r.Vals), delim)
+				}
+				return "R" + delim + strings.Join(dqVals(r.Vals), delim)
+			}
+			w.SetTag("csv.replace-double-quotes", "1")
+		}
 	case 1:
 		// B,<f0>,<f1>  /  M,<f2..>  /  E
 		cols := make([]interface{}, len(fn))
@@ -187,7 +231,7 @@ func genCSV2(t *tape.Tape, o GenOpts) *World {
 		}
 		recDecl = D{"name": "R", "header": "^B" + regexpQuote(delim), "footer": "^E$", "is_target": true, "columns": cols}
 		w.Render = func(r LRec) string {
-			return "B" + delim + csvLine(r.Vals[:2], delim, -1) + eol + "M" + delim + csvLine(r.Vals[2:], delim, -1) + eol + "E"
+			return "B" + delim + csvLine(r.Vals[:2], delim, -1) + ieol + "M" + delim + csvLine(r.Vals[2:], delim, -1) + ieol + "E"
 		}
 	default:
 		cols := make([]interface{}, len(fn))
@@ -213,7 +257,7 @@ func genCSV2(t *tape.Tape, o GenOpts) *World {
 			var sb strings.Builder
 			sb.WriteString("H" + delim + csvLine(r.Vals, delim, -1))
 			for _, it := range r.Items {
-				sb.WriteString(eol + "D" + delim + csvLine(it, delim, -1))
+				sb.WriteString(ieol + "D" + delim + csvLine(it, delim, -1))
 			}
 			return sb.String()
 		}
@@ -226,7 +270,7 @@ func genCSV2(t *tape.Tape, o GenOpts) *World {
 		}
 		recDecl["columns"] = cols
 		w.Render = func(r LRec) string {
-			return "B" + delim + csvLine(r.Vals, delim, -1) + eol + "M" + eol + "E"
+			return "B" + delim + csvLine(r.Vals, delim, -1) + ieol + "M" + ieol + "E"
 		}
 	}
 	records = append(records, recDecl)
@@ -242,6 +286,9 @@ func genCSV2(t *tape.Tape, o GenOpts) *World {
 		decls["FINAL_OUTPUT"].(D)["xpath"] = x
 	}
 	fd := D{"delimiter": delim, "records": records}
+	if replaceDQ2 {
+		fd["replace_double_quotes"] = true
+	}
 	w.Sep = eol
 	if t.Chance("gen.blankLines", 1, 4) {
 		w.Sep = eol + eol
@@ -317,6 +364,7 @@ func genFixed(t *tape.Tape, o GenOpts) *World {
 		w.SetTag("long-lines", "1")
 	}
 	eol := lineEnd(t)
+	ieol := innerEOL(t, eol)
 	m := Model{Fields: fn, IntField: fn[sh.IntIdx]}
 	var envs []interface{}
 	switch layout {
@@ -342,7 +390,7 @@ func genFixed(t *tape.Tape, o GenOpts) *World {
 					b = append(b, v)
 				}
 			}
-			return fixedLine("A", a, width) + eol + fixedLine("B", b, width)
+			return fixedLine("A", a, width) + ieol + fixedLine("B", b, width)
 		}
 	default:
 		cols := fixedCols(fn, 5, width, func(i int, d D) { d["line_pattern"] = "^V020" })
@@ -354,7 +402,7 @@ func genFixed(t *tape.Tape, o GenOpts) *World {
 		}
 		w.Prefix = "A010" + eol + "A060" + pad(Text(t, sh.Charset, 6), 6) + eol + "A999" + eol
 		w.Render = func(r LRec) string {
-			return "V010" + eol + fixedLine("V020", r.Vals, width) + eol + "V999"
+			return "V010" + ieol + fixedLine("V020", r.Vals, width) + ieol + "V999"
 		}
 		w.Suffix = eol + "Z001" + eol + "Z999"
 		if !o.OwnDataOnly {
@@ -399,6 +447,7 @@ func genFixed2(t *tape.Tape, o GenOpts) *World {
 		w.SetTag("long-lines", "1")
 	}
 	eol := lineEnd(t)
+	ieol := innerEOL(t, eol)
 	m := Model{Fields: fn, IntField: fn[sh.IntIdx]}
 	var envs []interface{}
 	globalHdr := layout >= 2 && t.Bool("fl2.global")
@@ -436,13 +485,13 @@ func genFixed2(t *tape.Tape, o GenOpts) *World {
 					b = append(b, v)
 				}
 			}
-			return fixedLine("A", a, width) + eol + fixedLine("B", b, width)
+			return fixedLine("A", a, width) + ieol + fixedLine("B", b, width)
 		}
 	case 2:
 		cols := fixedCols(fn, 5, width, func(i int, d D) { d["line_pattern"] = "^V020" })
 		envs = append(envs, D{"name": "R", "header": "^V010", "footer": "^V999", "is_target": true, "columns": cols})
 		w.Render = func(r LRec) string {
-			return "V010" + eol + fixedLine("V020", r.Vals, width) + eol + "V999"
+			return "V010" + ieol + fixedLine("V020", r.Vals, width) + ieol + "V999"
 		}
 		w.SetTag("envelope", "header_footer")
 	default:
@@ -462,7 +511,7 @@ func genFixed2(t *tape.Tape, o GenOpts) *World {
 			var sb strings.Builder
 			sb.WriteString(fixedLine("H", r.Vals, width))
 			for _, it := range r.Items {
-				sb.WriteString(eol + fixedLine("D", it, width))
+				sb.WriteString(ieol + fixedLine("D", it, width))
 			}
 			return sb.String()
 		}
